@@ -467,6 +467,10 @@ type Contract struct {
 	Requires []*Clause
 	Ensures  []*Clause
 	Modifies []*SExpr
+	// OwnMemory: memory families the body may write although callers are told nothing changes there -
+	// the ASSUMED frame "only memory allocated by this call is written" for constructors whose callees
+	// carry whole-family modifies (listed as an assumption in the evidence)
+	OwnMemory []*SExpr
 	ModAll   bool // "modifies *": everything may change (only for trusted lib calls)
 	Loops    map[string]*LoopSpec
 	Lets     []LetDef
@@ -544,7 +548,7 @@ func (c ContractError) Error() string { return "CONTRACT-ERROR: " + c.msg }
 
 var clauseKeywords = map[string]bool{"func": true, "requires": true, "ensures": true, "modifies": true, "loop": true,
 	"spec": true, "axiom": true, "pred": true, "ghost": true, "inline": true, "trusted": true, "let": true, "tags": true,
-	"noeffect": true, "pure": true, "mode": true, "update": true, "const": true, "alloc": true, "implements": true, "end": true, "any": true, "wrapok": true, "ghostinit": true, "cases": true, "typeinv": true, "safetytags": true, "interior": true}
+	"ownmemory": true, "noeffect": true, "pure": true, "mode": true, "update": true, "const": true, "alloc": true, "implements": true, "end": true, "any": true, "wrapok": true, "ghostinit": true, "cases": true, "typeinv": true, "safetytags": true, "interior": true}
 
 // parseContractText parses the //@ lines of one file. pkg is the package path ("" for library specs).
 func (ss *SpecSet) parseContractText(file, pkg string, lines []string, lineNos []int) error {
@@ -651,6 +655,17 @@ func (ss *SpecSet) parseContractText(file, pkg string, lines []string, lineNos [
 					return fail(it, err.Error())
 				}
 				cur.Modifies = append(cur.Modifies, e)
+			}
+		case "ownmemory":
+			if cur == nil {
+				return fail(it, "ownmemory outside func")
+			}
+			for _, part := range splitTop(rest, ',') {
+				e, err := parseSpecExpr(part)
+				if err != nil {
+					return fail(it, err.Error())
+				}
+				cur.OwnMemory = append(cur.OwnMemory, e)
 			}
 		case "loop":
 			if cur == nil {
